@@ -348,9 +348,9 @@ fn window_boundary(gap: u32, reload: bool, ctx: &mut Ctx) {
 
 fn depth(tier: &str) -> usize {
     if tier == "quick" {
-        7
-    } else {
         8
+    } else {
+        9
     }
 }
 
